@@ -20,3 +20,12 @@ func TestRegress_EncodeURLCustomTable(t *testing.T) {
 		t.Errorf("EncodeURL(%q) with space and E marked = %q, want %q", "a ENE", got, "a%20%45N%45")
 	}
 }
+
+// e9e6fb2: a plus sign in a percent-encoded payload is a plus sign
+func TestRegress_DataURIPlus(t *testing.T) {
+	for uri, want := range map[string]string{"data:,a+b": "a+b", "data:,a%2Bb%20c+": "a+b c+", "data:image/svg+xml,<svg>1+2</svg>": "<svg>1+2</svg>"} {
+		if _, got, err := parse.DataURI([]byte(uri)); err != nil || string(got) != want {
+			t.Errorf("DataURI(%q) = %q, %v, want %q", uri, got, err, want)
+		}
+	}
+}
